@@ -22,10 +22,18 @@ RULE = (
 ASSUMPTIONS = ["the list of disallowed names is read as data from eyecite.utils.DISALLOWED_NAMES; the rule itself is re-implemented",
                "clean_text is trusted here (checked by C20)"]
 SYL = ["ka", "lo", "mi", "ren", "tov", "bar", "zen", "qua", "dri", "fel", "gor", "hup", "jin", "vas", "wim", "yor", "plu", "sha", "cre", "bo"]
-BAD_NAMES = ["State", "United States", "People", "Mass", "Co.", "Al", "Inc.", "Commonwealth", "1234", "lowercase", "Xy"]
+# names at the boundary of every conjunct of the validity rule (too short; first character not upper case - with and
+# without capitals further on, or without any cased character; trailing full stop; digits only; disallowed words)
+BAD_NAMES = ["State", "United States", "People", "Mass", "Co.", "Al", "Inc.", "Commonwealth", "1234", "lowercase", "Xy",
+             "al-Kidd", "eBay", "de Leon", "du Pont", "iPhone", "$124,570", "1st Bank", "\u00dfeta", "\u0661\u0662\u0663", "\u00b2\u00b3\u00b9",
+             "Smithco.", "Q", "von Braun", "mcDonald", "x-Ray"]
+# unusual names the rule admits
+ODD_NAMES = ["\u00c9clair", "O'Brien", "McDonald", "X-Ray", "ABC", "Pe\u00f1a", "D'Amato", "\u0141o\u015b", "\u042f\u043a\u043e\u0432\u043b\u0435\u0432", "Int'l", "AT&T"]
 REPS = ["U.S.", "F.2d", "F.3d", "S. Ct.", "A.2d", "N.E.2d", "U. S."]
 FILL = ["The court considered the matter at length.", "That reasoning is persuasive.", "We disagree with the dissent &amp; concurrence.",
-        "Nothing in the record suggests otherwise."]
+        "Nothing in the record suggests otherwise.",
+        # text that is not in Unicode normal form C (letter + combining mark, singletons), curly quotes, a section sign
+        "The re\u0301sume\u0301 of the na\u0308ive clerk weighed 5 \u212b.", "See \u201cthe record\u201d \u2014 \u00a7 5 \u2014 passim."]
 
 
 def setup(tier):
@@ -124,7 +132,9 @@ def _names(draw, n):
         if k0 == 0:
             nm = draw(st.sampled_from(BAD_NAMES))
         elif k0 == 1:
-            nm = draw(st.sampled_from(["Roe", "Doe", "Poe", "Cox", "Lee"]))  # the shortest names the rule admits
+            nm = draw(st.sampled_from(["Roe", "Doe", "Poe", "Cox", "Lee"] + ODD_NAMES))  # the shortest names the rule admits, and odd ones
+        elif k0 == 2:
+            nm = draw(st.sampled_from(ODD_NAMES))
         else:
             nm = "".join(draw(st.lists(st.sampled_from(SYL), min_size=2, max_size=3))).capitalize()
         if len(nm) > 1 and all(nm not in u and u not in nm for u in used):
@@ -147,7 +157,7 @@ def scenario_markup(draw):
     cited = []
     parts = []
     for _ in range(draw(st.integers(1, 7))):
-        kind = draw(st.sampled_from(["full", "full", "mention", "mention", "ref", "id", "short", "supra", "fill"]))
+        kind = draw(st.sampled_from(["full", "full", "mention", "mention", "ref", "ref", "id", "short", "supra", "fill", "fill"]))
         if kind == "full" or not cited:
             i = draw(st.integers(0, k - 1))
             c = cases[i]
